@@ -4,11 +4,15 @@ package main
 // whose unit goes away — code on the property's path that the plain unix/TCP sessions do not reach.
 
 import (
+	"crypto/rand"
+	"crypto/rsa"
 	"crypto/tls"
+	"encoding/json"
 	"fmt"
 	"net"
 	"os"
 	"path/filepath"
+	"sort"
 	"strings"
 	"sync"
 	"time"
@@ -339,4 +343,130 @@ func (w *world) streamsVsRelease() {
 			"results-not-ended:released-unit", map[string]interface{}{"ended": ended})
 	}
 	w.mu.Unlock()
+}
+
+// A node that VERIFIES signatures (verification key + a verifysignature work type), reached over
+// TCP and over a mesh stream, fed raw `signature` strings of every structure (rawsig.go) on every
+// signature-carrying command: the node stays alive, the reply is an ERROR line, nothing happens.
+func (w *world) rawSignaturePhase() {
+	if w.fatal != "" {
+		return
+	}
+	key, err := rsa.GenerateKey(rand.Reader, 2048)
+	Must(err)
+	pubF := filepath.Join(w.dir, "verify.pub")
+	Must(certificates.SaveToPEMFile(pubF, []interface{}{&key.PublicKey}, &certificates.OsWrapper{}))
+	v := &Daemon{Bin: w.c.Bin, ID: "c08v", Dir: filepath.Join(w.dir, "v")}
+	v.Sock = filepath.Join(v.Dir, "ctl.sock")
+	port := freePort()
+	v.Config = fmt.Sprintf("---\n- node:\n    id: c08v\n    datadir: %s\n- log-level: info\n- local-only:\n- work-verification:\n    publickey: %s\n- work-command:\n    worktype: vcat\n    command: cat\n    verifysignature: true\n- control-service:\n    service: control\n    filename: %s\n    tcplisten: 127.0.0.1:%d\n",
+		v.DataDir(), pubF, v.Sock, port)
+	if err := v.Start(); err != nil {
+		w.im.Violate("the verifying node did not start: "+err.Error(), "harness-stuck", nil)
+		return
+	}
+	defer func() { v.Kill(); killTree(v.Dir) }()
+	// a finished unit of the verifying type (the unix socket needs no token)
+	mkUnit := func() string {
+		s, err := dialNet("unix", v.Sock)
+		if err != nil {
+			return ""
+		}
+		defer s.close()
+		_ = s.send([]byte("work submit localhost vcat\n"))
+		l, err := s.line(5 * time.Second)
+		i := strings.Index(l, "with ID ")
+		if err != nil || i < 0 {
+			return ""
+		}
+		id := strings.TrimSuffix(strings.Fields(l[i+8:])[0], ".")
+		_ = s.send([]byte("x\n"))
+		s.closeWrite()
+		_, _ = s.line(5 * time.Second)
+		return id
+	}
+	unit := mkUnit()
+	list := func() string {
+		s, err := dialNet("unix", v.Sock)
+		if err != nil {
+			return "?"
+		}
+		defer s.close()
+		_ = s.send([]byte("work list\n"))
+		_ = s.c.SetReadDeadline(time.Now().Add(2 * time.Second))
+		l, err := s.r.ReadString('\n')
+		if err != nil {
+			return "?"
+		}
+		var m map[string]struct{ State int }
+		_ = json.Unmarshal([]byte(l), &m)
+		ids := []string{}
+		for k, u := range m {
+			ids = append(ids, fmt.Sprintf("%s:%d", k, u.State))
+		}
+		sort.Strings(ids)
+		return strings.Join(ids, ",")
+	}
+	cmds := []string{"submit", "cancel", "release", "force-release", "results"}
+	for i := 0; i < 200 && !strings.Contains(list(), unit+":2"); i++ {
+		time.Sleep(25 * time.Millisecond) // the fixture unit finishes on its own
+	}
+	before := list()
+	for i, rs := range rawSignatures(w.c.Rng, "c08v", w.c.Thorough()) {
+		cmd := cmds[i%len(cmds)]
+		req := map[string]interface{}{"command": "work", "subcommand": cmd, "signature": rs.tok}
+		switch cmd {
+		case "submit":
+			req["node"], req["worktype"] = "localhost", "vcat"
+		case "results":
+			req["unitid"], req["startpos"] = unit, 0
+		default:
+			req["unitid"] = unit
+		}
+		jb, _ := json.Marshal(req)
+		rec := map[string]interface{}{"what": "raw signature " + rs.name, "command": cmd, "signature": clip(rs.tok, 120)}
+		w.im.Hist("raw-signature:" + cmd)
+		w.im.Count(fmt.Sprintf("raw-signature %d %s", i, rs.name), true)
+		var s *Sess
+		var err error
+		if i%2 == 0 {
+			s, err = dialNet("tcp", fmt.Sprintf("127.0.0.1:%d", port))
+		} else {
+			s, err = dialNet("unix", v.Sock)
+			if err == nil {
+				_ = s.send([]byte("connect c08v control\n"))
+				_, _ = s.line(5 * time.Second)
+				_, err = s.line(5 * time.Second)
+			}
+		}
+		reply := ""
+		if err == nil {
+			_ = s.send(append(jb, '\n'))
+			reply, err = s.line(5 * time.Second)
+			s.close()
+		}
+		if err != nil {
+			v.wait(500 * time.Millisecond)
+		}
+		if !v.Alive() {
+			lg, _ := os.ReadFile(v.LogPath())
+			what := tail(string(lg), 300)
+			if j := strings.Index(string(lg), "panic: "); j >= 0 {
+				what = firstLine(string(lg)[j:])
+			}
+			w.im.Violate(fmt.Sprintf("the verifying node died on work %s with signature %s (%q): %s", cmd, rs.name, clip(rs.tok, 60), what), "daemon-crashed:raw-signature", rec)
+			return
+		}
+		if err != nil {
+			w.im.Violate(fmt.Sprintf("work %s with signature %s was not answered: %v", cmd, rs.name, err), "same-session-stalled", rec)
+			continue
+		}
+		if !strings.HasPrefix(reply, "ERROR") {
+			w.im.Violate(fmt.Sprintf("work %s with the raw signature %s (%q) over a network connection was not answered with ERROR: %q", cmd, rs.name, clip(rs.tok, 60), reply), "invalid-not-error:raw-signature", rec)
+		}
+		if after := list(); after != before {
+			w.im.Violate(fmt.Sprintf("work %s with the raw signature %s took effect: units %s -> %s", cmd, rs.name, before, after), "invalid-changed-state:raw-signature", rec)
+			before = after
+		}
+	}
 }
